@@ -49,7 +49,8 @@ def make_cxx_extract():
 def groups(tier):
     gs = []
     def G(name, fn, entry, srcs, **kw):
-        return Group(name=name, srcs=srcs, entry=entry, enforce=fn, timeout=kw.pop("timeout", 300), replay="seq", **kw)
+        return Group(name=name, srcs=srcs, entry=entry, enforce=fn, timeout=kw.pop("timeout", 300), replay="seq",
+                     checks=["--bounds-check", "--pointer-check", "--signed-overflow-check", "--div-by-zero-check", "--conversion-check"], **kw)
     for fn, h in [("nsync_time_add", "h_time_add"), ("nsync_time_sub", "h_time_sub"),
                   ("nsync_time_cmp", "h_time_cmp"), ("nsync_time_s_ns", "h_time_s_ns")]:
         gs.append(G("c." + fn, fn, h, C_SRCS, min_obligations=10))
